@@ -53,9 +53,15 @@ def gen_dyn_universe(rng: random.Random, ideal_origins=False, name_mode="unique"
             out[b] = out[a]
         return out
 
+    links = [gen_link_spec(rng, i, x, empty_vsl=False) for i, x in enumerate(names("L", nl))]
+    if rng.random() < 0.2:  # coincidences: some links have exactly the same parameters
+        for _ in range(rng.randint(1, 3)):
+            a, b = rng.sample(range(nl), 2)
+            links[b] = dict(links[a], name=links[b]["name"])
     return {
+        "user_subclasses": rng.random() < 0.15,
         "nodes": [{"name": x} for x in names("N", nn)],
-        "links": [gen_link_spec(rng, i, x, empty_vsl=False) for i, x in enumerate(names("L", nl))],
+        "links": links,
         "origins": [gen_origin_spec(rng, x, kinds) for x in names("O", no)],
         "dests": [gen_dest_spec(rng, x) for x in names("D", nd)],
         "junk": ["str"],
@@ -250,6 +256,13 @@ def gen_values(seed: int, uspec: dict, refs: list, neg: bool = False, edge: bool
                     vals[var][int(g.integers(n))] *= -0.1
                 if edge and n and g.random() < 0.3:  # boundary values: exact zero, tiny, huge
                     vals[var][int(g.integers(n))] = float(g.choice([0.0, 1e-12, 1e6]))
+                if edge and n and g.random() < 0.3:  # integer-valued floats, equal values within a vector
+                    vals[var] = [float(round(vals[var][0]))] * n
+        if edge and out and vals and g.random() < 0.5:  # exactly the same values as another element of that shape
+            for prev in list(out.values()):
+                if prev.keys() == vals.keys() and all(len(prev[k]) == len(vals[k]) for k in vals):
+                    vals = {k: list(v) for k, v in prev.items()}
+                    break
         if vals:
             out[r] = vals
     return out
@@ -273,7 +286,7 @@ def gen_opts(rng: random.Random, allow_delta=True) -> dict:
     return o
 
 
-def numeric_init(U: Universe, values: dict, zero_d: bool, alias=None, share: bool = True) -> dict:
+def numeric_init(U: Universe, values: dict, zero_d, alias=None, share: bool = True, dtype=None) -> dict:
     """init_conditions for the NumPy engine: fresh arrays, keyed by element object.
     ``alias``: list of [[ref, var], [ref, var]] pairs that share ONE array object when
     ``share`` (the network under test) or hold equal-valued distinct copies (the twin)."""
@@ -284,12 +297,16 @@ def numeric_init(U: Universe, values: dict, zero_d: bool, alias=None, share: boo
             size = var_layout(U.spec_of(r))
             n = next(v[var] for v in size.values() if var in v)
             scalar = r[0] != "l"
-            d[var] = np.array(x[0]) if (scalar and zero_d) else np.array(x, dtype=float)
+            if scalar and zero_d == "pyfloat":
+                d[var] = float(x[0])  # plain Python numbers for the scalar quantities
+            else:
+                d[var] = np.array(x[0], dtype=dtype or float) if (scalar and zero_d) else np.array(x, dtype=dtype or float)
             assert scalar or d[var].shape == (n,)
         ic[U.obj(r)] = d
     for (r1, v1), (r2, v2) in alias or []:
         if r1 in values and r2 in values and v1 in values[r1] and v2 in values[r2]:
-            ic[U.obj(r2)][v2] = ic[U.obj(r1)][v1] if share else ic[U.obj(r1)][v1].copy()
+            a_ = ic[U.obj(r1)][v1]
+            ic[U.obj(r2)][v2] = a_ if (share or not hasattr(a_, "copy")) else a_.copy()
     return ic
 
 
